@@ -160,8 +160,11 @@ def interleave(qs):
 
 # ---------------------------------------------------------------------------------- comparison
 
-def _mask_state(line, n):
-    """svd: `veq` is a bitwise comparison; a subset covering all unknowns may regularise to the same bits"""
+def _mask_state(line, n, kernel=None):
+    """svd: `veq` is a bitwise comparison of V_ with the saved plain V (a numeric proxy of the model's ghost
+    "V_ is plain"); regularising over a subset that contains the support of the whole null space is the same
+    minimisation as over all unknowns and may leave the same bits (thorough run 1, replay C04-1: list [2,3],
+    null vector (0,1,-1))"""
     t = line.split()
     if "veq" in t and "list" in t and "st" in t:
         try:
@@ -170,20 +173,21 @@ def _mask_state(line, n):
             if t[li + 1] != "null":
                 cnt = int(t[li + 1])
                 lst = set(map(int, t[li + 2: li + 2 + cnt]))
-                if t[k + 3] == "1" and lst >= set(range(1, n + 1)):
+                supp = set(range(1, n + 1)) if kernel is None else {i + 1 for z in kernel for i, zi in enumerate(z) if zi != 0}
+                if t[k + 3] == "1" and lst >= supp:
                     t[t.index("veq") + 1] = "*"
         except (ValueError, IndexError):
             pass
     return " ".join(t)
 
 
-def line_ok(impl, model, n):
+def line_ok(impl, model, n, kernel=None):
     if model == "not-modelled":
         return True                                     # numeric model does not cover the query
     if model == "after-throw":
         return not impl.startswith(("throw", "<"))      # outside the quantifier: only "no throw" is checked
     if impl.startswith(("st ", "adj ")) or model.startswith(("st ", "adj ")):
-        return _mask_state(impl, n) == _mask_state(model, n)
+        return _mask_state(impl, n, kernel) == _mask_state(model, n, kernel)
     return lines_equal(impl, model, rtol=RTOL, atol=ATOL)
 
 
